@@ -651,4 +651,231 @@ theorem declRules_function (se : SpecEnv) (file : String) (ns : List String) (n 
   rw [h1]
   simp only [typeRules, dataNodesT, fnNodesT, sigsOf, kindRules, List.map_cons, List.append_nil]
 
+/-! ### visit-time and post-resolution rules of each kind, in the specification's words -/
+
+theorem reported_diagsOnly (m : Resolved) (reg : Registry) (D : List Diag) (x : Diag) :
+    Reported m reg { diags := D } x ↔ x ∈ D := by
+  unfold Reported; simp
+
+theorem reported_reg1 (m : Resolved) (reg : Registry) (e : Env) (ns : List String) (n : String) (p : Prim) (pos : Pos)
+    (U : CheckUnit) (x : Diag) :
+    Reported m reg (reg1 e ns n p pos U) x ↔ UnitViolation m { file := e.file, ns := ns, unit := U } x := by
+  unfold Reported reg1; simp
+
+theorem mem_flatMap_ite_iff {α β : Type} (l : List α) (p : α → Bool) (g : α → β) (x : β) :
+    x ∈ l.flatMap (fun a => if p a then [g a] else []) ↔ x ∈ (l.filter p).map g := by
+  simp only [List.mem_flatMap, List.mem_map, List.mem_filter]
+  constructor
+  · rintro ⟨a, ha, hx⟩
+    cases hp : p a
+    · simp [hp] at hx
+    · simp [hp] at hx; exact ⟨a, ⟨ha, hp⟩, hx.symm⟩
+  · rintro ⟨a, ⟨ha, hp⟩, rfl⟩
+    exact ⟨a, ha, by simp [hp]⟩
+
+/-- flag modifiers -/
+theorem mem_flagModDiags_spec (e : Env) (items : List FlagItem) (x : Diag) :
+    x ∈ flagModDiags e items ↔
+      x ∈ (items.filter (fun i => match i.modifier with | some m => !(m == "all" || m == "none") | none => false)).map
+        (fun i => mk "ParsingException" "flag-modifier" e.file i.modifierPos) := by
+  rw [mem_flagModDiags_iff]
+  simp only [List.mem_map, List.mem_filter, mk]
+  constructor
+  · rintro ⟨i, hi, mo, hm, h1, h2, rfl⟩
+    exact ⟨i, ⟨hi, by simp [hm, h1, h2]⟩, rfl⟩
+  · rintro ⟨i, ⟨hi, hp⟩, rfl⟩
+    cases hm : i.modifier with
+    | none => simp [hm] at hp
+    | some mo =>
+      simp only [hm, Bool.not_eq_true', Bool.or_eq_false_iff, beq_eq_false_iff_ne, ne_eq] at hp
+      exact ⟨i, hi, mo, hm, hp.1, hp.2, rfl⟩
+
+/-- unknown deriving names -/
+theorem mem_derivingDiags_spec (e : Env) (der : Option (List (String × Pos))) (x : Diag) :
+    x ∈ (match der with | some l => derivingDiags e l | none => []) ↔
+      x ∈ ((der.getD []).filter (fun y => !(y.1 == "eq" || y.1 == "ord"))).map (fun y => mk "ParsingException" "deriving" e.file y.2) := by
+  cases der with
+  | none => simp
+  | some l =>
+    simp only [Option.getD_some]
+    rw [mem_derivingDiags_iff]
+    simp only [List.mem_map, List.mem_filter, mk]
+    constructor
+    · rintro ⟨y, hy, h1, h2, rfl⟩
+      exact ⟨y, ⟨hy, by simp [h1, h2]⟩, rfl⟩
+    · rintro ⟨y, ⟨hy, hp⟩, rfl⟩
+      simp only [Bool.not_eq_true', Bool.or_eq_false_iff, beq_eq_false_iff_ne, ne_eq] at hp
+      exact ⟨y, hy, hp.1, hp.2, rfl⟩
+
+/-- `function` as a record field type -/
+theorem mem_fnFieldDiags_spec (e : Env) (fields : List Field) (x : Diag) :
+    x ∈ fnFieldDiags e fields ↔
+      x ∈ (fields.filter (fun f => isFn f.ty)).map (fun f => mk "ParsingException" "fn-field" e.file (posOf f.ty)) :=
+  mem_flatMap_ite_iff fields (fun f => isFn f.ty) (fun f => mk "ParsingException" "fn-field" e.file (posOf f.ty)) x
+
+/-- `static` together with `const` -/
+theorem mem_staticConstDiags_spec (e : Env) (ms : List Method) (x : Diag) :
+    x ∈ staticConstDiags e ms ↔
+      x ∈ (ms.filter (fun m => m.isStatic && m.isConst)).map (fun m => mk "ParsingException" "static-const" e.file m.pos) :=
+  mem_flatMap_ite_iff ms (fun m => m.isStatic && m.isConst) (fun m => mk "ParsingException" "static-const" e.file m.pos) x
+
+/-- `static` only on C++-only interfaces -/
+theorem mem_staticDiags_spec (e : Env) (cppOnly : Bool) (ms : List Method) (x : Diag) :
+    x ∈ staticDiags e cppOnly ms ↔
+      x ∈ (if cppOnly then [] else (ms.filter (·.isStatic)).map (fun m => mk "ParsingException" "static-cpp" e.file m.pos)) := by
+  rw [mem_staticDiags_iff]
+  cases cppOnly
+  · simp only [true_and, Bool.false_eq_true, if_false, List.mem_map, List.mem_filter, mk]
+    constructor
+    · rintro ⟨mth, hm, hs, rfl⟩; exact ⟨mth, ⟨hm, hs⟩, rfl⟩
+    · rintro ⟨mth, ⟨hm, hs⟩, rfl⟩; exact ⟨mth, hm, hs, rfl⟩
+  · simp
+
+/-- the `ord` switch of a record: unknown deriving names do not matter -/
+theorem derivingOf_contains_ord (e : Env) (der : Option (List (String × Pos))) :
+    (derivingOf e der).contains "ord"
+      = ((match der with | some l => l.map Prod.fst | none => []) ++ e.defaultDeriving).contains "ord" := by
+  cases der with
+  | none => rfl
+  | some l =>
+    rw [Bool.eq_iff_iff]
+    simp only [derivingOf, List.contains_iff_mem, List.mem_append, List.mem_filter]
+    constructor
+    · rintro (⟨h, _⟩ | h)
+      · exact Or.inl h
+      · exact Or.inr h
+    · rintro (h | h)
+      · exact Or.inl ⟨h, by decide⟩
+      · exact Or.inr h
+
+/-- function / interface / error as record field type, collections under `ord` -/
+theorem mem_checkFields_spec (se : SpecEnv) (m : Resolved) (file : String) (ns : List String) (ord : Bool)
+    (fields : List Field) (hag : ∀ f ∈ fields, primOf m file f.ty = specPrim se ns f.ty) (x : Diag) :
+    x ∈ checkFields m file ord (fields.map (fun f => (f.pos, f.ty))) ↔
+      x ∈ (fields.filter (fun f => specPrim se ns f.ty == some .error)).map (fun f => mk "ParsingException" "field-error" file (posOf f.ty))
+        ++ (fields.filter (fun f => specPrim se ns f.ty == some .interface)).map (fun f => mk "ParsingException" "field-interface" file (posOf f.ty))
+        ++ (if ord then (fields.filter (fun f => specPrim se ns f.ty == some .collection)).map (fun f => mk "ParsingException" "ord-collection" file f.pos) else []) := by
+  rw [mem_checkFields_iff]
+  simp only [List.mem_append]
+  constructor
+  · rintro ⟨fp, hfp, h⟩
+    obtain ⟨f, hf, rfl⟩ := List.mem_map.mp hfp
+    have ha := hag f hf
+    rcases h with ⟨hp, rfl⟩ | ⟨hp, rfl⟩ | ⟨ho, hp, rfl⟩
+    · exact Or.inl (Or.inl (List.mem_map.mpr ⟨f, List.mem_filter.mpr ⟨hf, by simp [← ha, hp]⟩, rfl⟩))
+    · exact Or.inl (Or.inr (List.mem_map.mpr ⟨f, List.mem_filter.mpr ⟨hf, by simp [← ha, hp]⟩, rfl⟩))
+    · right
+      rw [if_pos ho]
+      exact List.mem_map.mpr ⟨f, List.mem_filter.mpr ⟨hf, by simp [← ha, hp]⟩, rfl⟩
+  · rintro ((h | h) | h)
+    · obtain ⟨f, hf, rfl⟩ := List.mem_map.mp h
+      obtain ⟨hf, hp⟩ := List.mem_filter.mp hf
+      exact ⟨(f.pos, f.ty), List.mem_map.mpr ⟨f, hf, rfl⟩, Or.inl ⟨by rw [hag f hf]; simpa using hp, rfl⟩⟩
+    · obtain ⟨f, hf, rfl⟩ := List.mem_map.mp h
+      obtain ⟨hf, hp⟩ := List.mem_filter.mp hf
+      exact ⟨(f.pos, f.ty), List.mem_map.mpr ⟨f, hf, rfl⟩, Or.inr (Or.inl ⟨by rw [hag f hf]; simpa using hp, rfl⟩)⟩
+    · cases ord with
+      | false => simp at h
+      | true =>
+        simp only [if_true] at h
+        obtain ⟨f, hf, rfl⟩ := List.mem_map.mp h
+        obtain ⟨hf, hp⟩ := List.mem_filter.mp hf
+        exact ⟨(f.pos, f.ty), List.mem_map.mpr ⟨f, hf, rfl⟩, Or.inr (Or.inr ⟨rfl, by rw [hag f hf]; simpa using hp, rfl⟩)⟩
+
+/-! ### per declaration, kind by kind -/
+
+theorem mem_declRules_iff_nil (se : SpecEnv) (file : String) (ns : List String) (d : Decl)
+    (hs : sigsOf d = ((topTypes d).flatMap fnNodesT).map sigOfFn)
+    (hf : ∀ n c sig pos, d ≠ .function n c sig pos) (x : Diag) :
+    x ∈ declRules se file ns d ↔ (∃ t ∈ topTypes d, x ∈ typeRules se file ns t) ∨ x ∈ kindRules se file ns d := by
+  rw [mem_declRules_iff se file ns d [] (by rw [hs]; rfl) hf]
+  simp
+
+theorem unitViolation_other (m : Resolved) (file : String) (ns : List String) (x : Diag) :
+    ¬ UnitViolation m { file := file, ns := ns, unit := .other } x := fun h => h
+
+section kinds
+variable (e : Env) (reg : Registry) (m : Resolved) (ns : List String) (x : Diag)
+
+/-- enumerations: nothing is ever reported, and the specification has no rule -/
+theorem reported_enum (n : String) (c : List String) (items : List Item) (pos : Pos) :
+    Reported m reg (walkDecl e ns (.enum n c items pos)) x
+      ↔ x ∈ declRules (specEnvOf e reg) e.file ns (.enum n c items pos) := by
+  rw [mem_declRules_iff_nil _ _ _ _ rfl (by intro _ _ _ _ h; cases h)]
+  simp only [walkDecl]
+  rw [reported_reg1]
+  simp [unitViolation_other, topTypes, kindRules]
+
+/-- flags: the modifier rule -/
+theorem reported_flags (n : String) (c : List String) (items : List FlagItem) (pos : Pos) :
+    Reported m reg (walkDecl e ns (.flags n c items pos)) x
+      ↔ x ∈ declRules (specEnvOf e reg) e.file ns (.flags n c items pos) := by
+  rw [mem_declRules_iff_nil _ _ _ _ rfl (by intro _ _ _ _ h; cases h)]
+  simp only [walkDecl]
+  rw [reported_append, reported_diagsOnly, reported_reg1, mem_flagModDiags_spec]
+  simp [unitViolation_other, topTypes, kindRules]
+
+/-- named functions: references, signatures and targets at any depth -/
+theorem reported_function (n : String) (c : List String) (sig : FnSig) (pos : Pos)
+    (hb : Binds m reg (walkDecl e ns (.function n c sig pos)).refs) :
+    Reported m reg (walkDecl e ns (.function n c sig pos)) x
+      ↔ x ∈ declRules (specEnvOf e reg) e.file ns (.function n c sig pos) := by
+  rw [declRules_function]
+  have hw : walkT e ns (.fn sig pos) = walkF e ns sig := by simp only [walkT]
+  have h := reported_walkT e reg m ns (.fn sig pos) (by rw [hw]; exact hb) x
+  rw [hw] at h
+  exact h
+
+/-- error domains: the parameter types of the codes (error-code parameter lists are not signatures) -/
+theorem reported_error (n : String) (c : List String) (codes : List ErrCode) (pos : Pos)
+    (hb : Binds m reg (walkDecl e ns (.error n c codes pos)).refs) :
+    Reported m reg (walkDecl e ns (.error n c codes pos)) x
+      ↔ x ∈ declRules (specEnvOf e reg) e.file ns (.error n c codes pos) := by
+  have hc := covers_walkCodes e ns codes
+  have hb' : Binds m reg (walkCodes e ns codes).refs := fun r hr => hb r (by
+    simp only [walkDecl, Collected.refs_append, List.mem_append]; exact Or.inl hr)
+  rw [mem_declRules_iff_nil _ _ _ _ rfl (by intro _ _ _ _ h; cases h)]
+  simp only [walkDecl]
+  rw [reported_append, reported_covers hc reg m hb', reported_reg1]
+  simp [unitViolation_other, topTypes, kindRules]
+
+/-- records: references at any depth, inline function types, targets, deriving names, function / interface / error
+    as field type, collections under `ord` -/
+theorem reported_record (n : String) (c : List String) (fl : List String) (fp : Pos) (fields : List Field)
+    (der : Option (List (String × Pos))) (pos : Pos)
+    (hb : Binds m reg (walkDecl e ns (.record n c fl fp fields der pos)).refs) :
+    Reported m reg (walkDecl e ns (.record n c fl fp fields der pos)) x
+      ↔ x ∈ declRules (specEnvOf e reg) e.file ns (.record n c fl fp fields der pos) := by
+  have hc := covers_walkFields e ns fields
+  have hb' : Binds m reg (walkFields e ns fields).refs := fun r hr => hb r (by
+    simp only [walkDecl, Collected.refs_append, List.mem_append]; exact Or.inl (Or.inl hr))
+  have hag : ∀ f ∈ fields, primOf m e.file f.ty = specPrim (specEnvOf e reg) ns f.ty := fun f hf =>
+    hc.primOf_eq reg m hb' f.ty (List.mem_map.mpr ⟨f, hf, rfl⟩)
+  rw [mem_declRules_iff_nil _ _ _ _ rfl (by intro _ _ _ _ h; cases h)]
+  simp only [walkDecl]
+  rw [reported_append, reported_append, reported_covers hc reg m hb', reported_diagsOnly, reported_reg1]
+  have hU : UnitViolation m ⟨e.file, ns, .record (fields.map (fun f => (f.pos, f.ty))) ((derivingOf e der).contains "ord")⟩ x
+      ↔ x ∈ checkFields m e.file ((derivingOf e der).contains "ord") (fields.map (fun f => (f.pos, f.ty))) := Iff.rfl
+  rw [hU, derivingOf_contains_ord, mem_checkFields_spec (specEnvOf e reg) m e.file ns _ fields hag]
+  simp only [List.mem_append, mem_fnFieldDiags_spec, targetDiags_eq_unknownTargets e reg, kindRules, topTypes]
+  constructor
+  · rintro (((h | h) | (h | h)) | ((h | h) | h))
+    · exact Or.inl h
+    · exact Or.inr (Or.inl (Or.inl (Or.inl (Or.inr h))))
+    · exact Or.inr (Or.inl (Or.inl (Or.inl (Or.inl (Or.inr ((mem_derivingDiags_spec e der x).mp h))))))
+    · exact Or.inr (Or.inl (Or.inl (Or.inl (Or.inl (Or.inl h)))))
+    · exact Or.inr (Or.inl (Or.inl (Or.inr h)))
+    · exact Or.inr (Or.inl (Or.inr h))
+    · exact Or.inr (Or.inr h)
+  · rintro (h | (((((h | h) | h) | h) | h) | h))
+    · exact Or.inl (Or.inl (Or.inl h))
+    · exact Or.inl (Or.inr (Or.inr h))
+    · exact Or.inl (Or.inr (Or.inl ((mem_derivingDiags_spec e der x).mpr h)))
+    · exact Or.inl (Or.inl (Or.inr h))
+    · exact Or.inr (Or.inl (Or.inl h))
+    · exact Or.inr (Or.inl (Or.inr h))
+    · exact Or.inr (Or.inr h)
+
+end kinds
+
 end Pydjinni.Front
